@@ -37,3 +37,113 @@ pub fn from_ip(_args: &[String]) -> i32 {
     }
     0
 }
+
+/// `txn <B> <M_mid>`: exercise the real id generators at production block size.
+/// Prints block summaries, selected raw blocks, distinctness of the first M message ids,
+/// the minimal distance between equal message ids, and three blocks of action ids.
+pub fn txn(args: &[String]) -> i32 {
+    use btdht::verif::AIDGenerator;
+    let b: usize = args[0].parse().unwrap();
+    let m: usize = args[1].parse().unwrap();
+    let extra_blocks = 3usize;
+    let total = m + extra_blocks * b;
+    let stdout = io::stdout();
+    let mut out = io::BufWriter::new(stdout.lock());
+
+    let mut aidgen = AIDGenerator::new();
+    let mut mid = aidgen.generate();
+    let mut last_seen: Vec<u32> = vec![u32::MAX; 1 << 24];
+    let mut len_ok = true;
+    let mut aid0: Option<u64> = None;
+    let mut aid_constant = true;
+    let mut first_m_distinct = true;
+    let mut first_repeat: Option<(usize, usize)> = None;
+    let mut min_gap: Option<usize> = None;
+    let nblocks_total = total / b;
+    let dump: Vec<usize> = vec![0, 1, 2, m / b - 2, m / b - 1, m / b, m / b + 1];
+    let mut block: Vec<u64> = Vec::with_capacity(b);
+    let mut sample_tids: Vec<(u64, u64, Vec<u8>)> = Vec::new();
+    for n in 0..total {
+        let tid = mid.generate();
+        let bytes = tid.as_ref();
+        if bytes.len() != 8 {
+            len_ok = false;
+        }
+        let mut w = [0u8; 8];
+        w.copy_from_slice(&bytes[..8]);
+        let v = u64::from_be_bytes(w);
+        let aid = v >> 24;
+        let mm = v & 0xff_ffff;
+        if n < 4 || n == b || n == m - 1 || n == m {
+            sample_tids.push((aid, mm, bytes.to_vec()));
+        }
+        match aid0 {
+            None => aid0 = Some(aid),
+            Some(a) => {
+                if a != aid {
+                    aid_constant = false;
+                }
+            }
+        }
+        let prev = last_seen[mm as usize];
+        if prev != u32::MAX {
+            let gap = n - prev as usize;
+            if n < m {
+                first_m_distinct = false;
+            }
+            if first_repeat.is_none() {
+                first_repeat = Some((prev as usize, n));
+            }
+            min_gap = Some(min_gap.map_or(gap, |g| g.min(gap)));
+        }
+        last_seen[mm as usize] = n as u32;
+        block.push(mm);
+        if block.len() == b {
+            let k = n / b;
+            let mut s = block.clone();
+            s.sort_unstable();
+            let start = s[0];
+            let ok = s.iter().enumerate().all(|(i, x)| *x == start + i as u64);
+            writeln!(out, "sum {} {} {}", k, start, ok as u8).unwrap();
+            if dump.contains(&k) {
+                let hexs: String = block.iter().map(|x| format!("{:06x}", x)).collect();
+                writeln!(out, "dump {} {}", k, hexs).unwrap();
+            }
+            block.clear();
+        }
+    }
+    writeln!(out, "blocks {}", nblocks_total).unwrap();
+    writeln!(out, "len_ok {}", len_ok as u8).unwrap();
+    writeln!(out, "aid {:010x}", aid0.unwrap()).unwrap();
+    writeln!(out, "aid_constant {}", aid_constant as u8).unwrap();
+    writeln!(out, "first_m_distinct {}", first_m_distinct as u8).unwrap();
+    if let Some((i, j)) = first_repeat {
+        writeln!(out, "first_repeat {} {}", i, j).unwrap();
+    }
+    writeln!(out, "min_gap {}", min_gap.map_or(-1i64, |g| g as i64)).unwrap();
+    for (a, mm, bytes) in sample_tids {
+        writeln!(out, "tid {} {} {}", a, mm, hex::encode(bytes)).unwrap();
+    }
+    drop(last_seen);
+
+    // action ids: 3 blocks + a few, one fresh AIDGenerator
+    let mut aidgen = AIDGenerator::new();
+    let mut ablock: Vec<u64> = Vec::new();
+    let na = 3 * b + 5;
+    let mut k = 0;
+    for n in 0..na {
+        let mut g = aidgen.generate();
+        let tid = g.generate();
+        let mut w = [0u8; 8];
+        w.copy_from_slice(tid.as_ref());
+        let v = u64::from_be_bytes(w);
+        ablock.push(v >> 24);
+        if ablock.len() == b || n == na - 1 {
+            let hexs: String = ablock.iter().map(|x| format!("{:010x}", x)).collect();
+            writeln!(out, "adump {} {}", k, hexs).unwrap();
+            ablock.clear();
+            k += 1;
+        }
+    }
+    0
+}
